@@ -3,12 +3,13 @@
 
    A PROGRAM is data: a sequence of bodies (instruction lists); body 1 of a thread is its main function.
    Instructions:
-     [op |-> "prim", p, a]            r := p(refs a)          p in {"add","mul","neg","nd","bomb"}
+     [op |-> "prim", p, a]            r := p(refs a)          p in {"add","mul","neg","nd","bomb","user"}
      [op |-> "diff", mode, b, at, seed]  r := derivative of body b (one parameter) at value `at`,
                                          applied to `seed`   (mode "vjp": make_vjp(f)(at)[0](seed);
                                                               mode "jvp": make_jvp(f)(at)(seed)[1])
      [op |-> "try", b]                r := value of body b, or Fallback if it raises
      [op |-> "call", b]               r := value of body b (no parameter; sees the enclosing registers)
+     [op |-> "ckpt", b, a]            r := checkpoint(body b)(refs a)   (body b has Len(a) parameters)
      [op |-> "if", c, bt, bf]         r := value of body bt if Plain(c) > 0 else bf   (Box.__bool__ / comparisons are plain)
      [op |-> "raise"]                 an exception escapes from user code
      [op |-> "ret", a]
@@ -35,6 +36,18 @@ CONSTANTS CounterScope, ExcPolicy, TopCmp, DepTest
 
 Fallback == -5
 
+\* ------------------------------------------------------------------ machine state
+VARIABLES prog,     \* [bodies, threads: Seq([main, input]), warnerr, utable, uscale]  - chosen in Init, never changes
+                    \*   utable[i] in {"rule","zero","missing"}: what is registered for argument i of the user primitive
+          top,      \* [Threads -> Int]; with CounterScope = "global" only top[1] is used
+          frames,   \* [Threads -> Seq(frame)]
+          heap,     \* [Threads -> Seq(node)]
+          exc,      \* [Threads -> BOOLEAN]: an exception is propagating
+          result,   \* [Threads -> [k |-> "none"] | [k |-> "val", v] | [k |-> "exc"]]
+          log       \* [Threads -> Seq(Int)]: trace ids handed out, in order (Tier-I observation)
+vars == <<prog, top, frames, heap, exc, result, log>>
+
+
 P(v) == [k |-> "p", v |-> v]
 B(v, t, n) == [k |-> "b", v |-> v, t |-> t, n |-> n]
 IsBox(x) == x.k = "b"
@@ -46,11 +59,15 @@ Plain(x) == IF IsBox(x) THEN Plain(x.v) ELSE x.v
 RECURSIVE MaxLevel(_)
 MaxLevel(x) == IF IsBox(x) THEN (IF x.t > MaxLevel(x.v) THEN x.t ELSE MaxLevel(x.v)) ELSE -1
 
+RECURSIVE ProdSeqFrom(_, _)
+ProdSeqFrom(xs, i) == IF i > Len(xs) THEN 1 ELSE xs[i] * ProdSeqFrom(xs, i + 1)
+ProdSeq(xs) == ProdSeqFrom(xs, 1)
 Raw(p, xs) == CASE p = "add" -> xs[1] + xs[2]
                 [] p = "mul" -> xs[1] * xs[2]
                 [] p = "neg" -> 0 - xs[1]
                 [] p = "nd"  -> xs[1]
                 [] p = "bomb" -> xs[1]
+                [] p = "user" -> prog.uscale * ProdSeq(xs)
 
 \* ------------------------------------------------------------------ tracer.find_top_boxed_args
 TopTrace(args) == LET S == {args[i].t : i \in {j \in DOMAIN args : IsBox(args[j])}} IN
@@ -66,7 +83,7 @@ TopNums(args, tt) == LET all == TopNumsFrom(args, tt, 1) IN
 Res(v, h) == [val |-> v, heap |-> h, exc |-> FALSE]
 Exc(h) == [val |-> P(0), heap |-> h, exc |-> TRUE]
 
-RECURSIVE Apply(_, _, _), JvpRule(_, _, _, _, _, _), SumJvps(_, _, _, _, _, _), VjpRule(_, _, _, _, _, _)
+RECURSIVE Apply(_, _, _), JvpRule(_, _, _, _, _, _), SumJvps(_, _, _, _, _, _), VjpRule(_, _, _, _, _, _), UserRule(_, _, _, _, _)
 
 \* tracer.primitive / f_wrapped
 Apply(p, args, h) ==
@@ -80,6 +97,7 @@ Apply(p, args, h) ==
        ELSE
        LET r == Apply(p, argvals, h) IN
        IF r.exc THEN r
+       ELSE IF p = "user" /\ \E j \in DOMAIN nums : prog.utable[nums[j]] = "missing" THEN Exc(r.heap)   \* no rule registered: raises
        ELSE
        LET nty == r.heap[args[nums[1]].n].ty IN
        IF nty = "V"
@@ -93,12 +111,25 @@ Apply(p, args, h) ==
                ELSE LET h2 == Append(s.heap, [ty |-> "J", g |-> s.val])
                     IN Res(B(r.val, tt, Len(h2)), h2)
 
+\* the rule a user registers for argument `argnum` of the product primitive  user(a1..an) = uscale * a1 * ... * an :
+\*   g -> ((uscale * g) * a_j1) * a_j2 ...   over the other arguments in order; written with traceable operations
+UserRule(argnum, g, args, h, j) ==
+  LET start == Apply("mul", <<P(prog.uscale), g>>, h)
+      RECURSIVE Go(_, _)
+      Go(acc, i) == IF acc.exc \/ i > Len(args) THEN acc
+                    ELSE IF i = argnum THEN Go(acc, i + 1)
+                    ELSE Go(Apply("mul", <<acc.val, args[i]>>, acc.heap), i + 1)
+  IN Go(start, 1)
+
 \* per-argument JVP rule (numpy_jvps.py): add -> g ; mul -> def_linear ; neg -> 'same'
 JvpRule(p, argnum, g, ans, args, h) ==
   CASE p = "add" -> Res(g, h)
     [] p = "mul" -> Apply("mul", [args EXCEPT ![argnum] = g], h)
     [] p = "neg" -> Apply("neg", <<g>>, h)
     [] p = "bomb" -> Exc(h)
+    [] p = "user" -> CASE prog.utable[argnum] = "rule" -> UserRule(argnum, g, args, h, 1)
+                       [] prog.utable[argnum] = "zero" -> Res(P(0), h)
+                       [] OTHER -> Exc(h)
 
 \* core.sum_outgrads over the per-argument tangents (vs.add / vs.mut_add are primitives with identity rules)
 SumJvps(p, nums, gs, ans, args, h) ==
@@ -115,6 +146,9 @@ VjpRule(p, argnum, g, ans, args, h) ==
     [] p = "mul" -> Apply("mul", <<args[3 - argnum], g>>, h)
     [] p = "neg" -> Apply("neg", <<g>>, h)
     [] p = "bomb" -> Exc(h)
+    [] p = "user" -> CASE prog.utable[argnum] = "rule" -> UserRule(argnum, g, args, h, 1)
+                       [] prog.utable[argnum] = "zero" -> Res(P(0), h)
+                       [] OTHER -> Exc(h)
 
 \* ------------------------------------------------------------------ reverse pass (util.toposort + core.backward_pass)
 RECURSIVE CountLoop(_, _, _)
@@ -162,16 +196,7 @@ Backward(g, endn, h) ==
       fin == BackLoop([stack |-> <<endn>>, cc |-> cc, out |-> [m \in {endn} |-> g], h |-> h, last |-> g, exc |-> FALSE])
   IN [val |-> fin.last, heap |-> fin.h, exc |-> fin.exc]
 
-\* ------------------------------------------------------------------ machine state
-VARIABLES prog,     \* [bodies, threads: Seq([main, input]), warnerr]  - chosen in Init, never changes
-          top,      \* [Threads -> Int]; with CounterScope = "global" only top[1] is used
-          frames,   \* [Threads -> Seq(frame)]
-          heap,     \* [Threads -> Seq(node)]
-          exc,      \* [Threads -> BOOLEAN]: an exception is propagating
-          result,   \* [Threads -> [k |-> "none"] | [k |-> "val", v] | [k |-> "exc"]]
-          log       \* [Threads -> Seq(Int)]: trace ids handed out, in order (Tier-I observation)
-vars == <<prog, top, frames, heap, exc, result, log>>
-
+\* ------------------------------------------------------------------ machine (continued)
 Threads == DOMAIN prog.threads
 Bodies == prog.bodies
 Scope(th) == IF CounterScope = "global" THEN 1 ELSE th
@@ -225,10 +250,13 @@ StepDiff(th) ==
   /\ UNCHANGED <<prog, exc, result>>
 
 StepNest(th) ==
-  /\ Running(th) /\ Ins(th).op \in {"try", "call", "if"}
+  /\ Running(th) /\ Ins(th).op \in {"try", "call", "if", "ckpt"}
   /\ LET b == IF Ins(th).op = "if" THEN (IF Plain(Val(th, Ins(th).c)) > 0 THEN Ins(th).bt ELSE Ins(th).bf) ELSE Ins(th).b
          kind == IF Ins(th).op = "try" THEN "try" ELSE "call"
-     IN frames' = [frames EXCEPT ![th] = Append(@, Frame(b, <<>>, Len(frames[th]), kind, -1))]
+         \* "ckpt" = autograd.checkpoint(body)(args): the machine treats it as a plain call with parameters
+         \* (deliberate deviation: recomputation during the backward pass is not modelled; value and derivatives are the same)
+         regs == IF Ins(th).op = "ckpt" THEN [i \in DOMAIN Ins(th).a |-> Val(th, Ins(th).a[i])] ELSE <<>>
+     IN frames' = [frames EXCEPT ![th] = Append(@, Frame(b, regs, Len(frames[th]), kind, -1))]
   /\ UNCHANGED <<prog, top, heap, exc, result, log>>
 
 StepRaise(th) ==
